@@ -37,6 +37,7 @@ def run_demo(path):
 
     env = dict(os.environ, PYTHONPATH=core.REPO, PYTHONWARNINGS="ignore", PYTHONHASHSEED="0")
     with tempfile.TemporaryDirectory(dir=core.scratch_base()) as cwd:
+        env["TMPDIR"] = cwd  # whatever the demo creates with tempfile goes away with this directory
         try:
             p = subprocess.run([sys.executable, os.path.abspath(path)], cwd=cwd, env=env, stdout=subprocess.PIPE, stderr=subprocess.STDOUT, text=True, errors="replace", timeout=300)
         except subprocess.TimeoutExpired:
